@@ -1,7 +1,7 @@
 /* bcdump — compile a Never program with the tree's compiler and dump the module, optionally
  * run it with the per-instruction hook (H1) and dump the register trace.
  *
- *   bcdump [--trace] [--gc every|default|seed:<n>] [--mem M] [--stack S] [--max-steps N]
+ *   bcdump [--trace|--peak] [--nocode] [--gc every|default|seed:<n>] [--mem M] [--stack S] [--max-steps N]
  *          [--entry name] [--arg a]... FILE
  *
  * Output (stdout), all numbers decimal:
@@ -20,6 +20,8 @@
  *   t <ip> <sp> <fp> <pp> <running> <exception> <line>  one per dispatched instruction
  *                                           (state BEFORE the instruction executes)
  *   g <n>                                   a collection happened (n = number so far)
+ *   with --peak instead of --trace no t lines are written; PEAK sp=<max sp> maxdepth=<max number of
+ *   frames on the fp chain> steps=<n> is printed before END (for long runs); --nocode omits I/S lines
  *   OUT <hex of everything the program printed>   (stdout of the run is captured via a pipe)
  *   END <ret> <result type> <result value> steps=<n>
  */
@@ -46,6 +48,7 @@ extern void (*nev_verif_func_meta)(unsigned int addr, unsigned int params, unsig
 
 static FILE * out;
 static unsigned long steps = 0, max_steps = 2000000;
+static int peak_only = 0, nocode = 0; static int peak_sp = -1; static int peak_frames = 0;
 static int gc_mode = 2; /* 0 never-forced-skip, 1 every, 2 default, 3 seeded */
 static unsigned long long gc_rng = 1;
 static unsigned int gc_count = 0;
@@ -63,9 +66,18 @@ static void meta_hook(unsigned int addr, unsigned int params, unsigned int freev
 
 static void step_hook(vm * m, bytecode * bc)
 {
-    fprintf(out, "t %u %d %d %d %d %d %u\n", m->ip, m->sp, m->fp, m->pp, (int)m->running, (int)m->exception, m->line_no);
+    if (m->sp > peak_sp) peak_sp = m->sp;
+    if (!peak_only)
+        fprintf(out, "t %u %d %d %d %d %d %u\n", m->ip, m->sp, m->fp, m->pp, (int)m->running, (int)m->exception, m->line_no);
+    else if (bc->type == BYTECODE_CALL)
+    {
+        int n = 0; stack_ptr p = m->pp;
+        while (p > 0 && n < 100000) { n++; p = m->stack[p - 4].sp; }
+        if (n > peak_frames) peak_frames = n;
+    }
     if (++steps > max_steps)
     {
+        if (peak_only) fprintf(out, "PEAK sp=%d maxdepth=%d steps=%lu\n", peak_sp, peak_frames, steps);
         fprintf(out, "END budget 0 0 steps=%lu\n", steps);
         fflush(out);
         _exit(0);
@@ -86,7 +98,7 @@ static int gc_decide(gc * c)
 static void gc_after(gc * c, gc_stack * s, int n, mem_ptr gv)
 {
     gc_count++;
-    fprintf(out, "g %u\n", gc_count);
+    if (!peak_only) fprintf(out, "g %u\n", gc_count);
 }
 
 int main(int argc, char ** argv)
@@ -97,6 +109,8 @@ int main(int argc, char ** argv)
     for (i = 1; i < argc; i++)
     {
         if (!strcmp(argv[i], "--trace")) trace = 1;
+        else if (!strcmp(argv[i], "--peak")) { trace = 1; peak_only = 1; }
+        else if (!strcmp(argv[i], "--nocode")) nocode = 1;
         else if (!strcmp(argv[i], "--mem") && i + 1 < argc) mem = (unsigned)atoi(argv[++i]);
         else if (!strcmp(argv[i], "--stack") && i + 1 < argc) stack = (unsigned)atoi(argv[++i]);
         else if (!strcmp(argv[i], "--max-steps") && i + 1 < argc) max_steps = strtoul(argv[++i], NULL, 10);
@@ -134,7 +148,7 @@ int main(int argc, char ** argv)
         size_t off = (size_t)((char *)&bc->int_t - (char *)bc);
         size_t n = sizeof(bytecode) - off; if (n > 16) n = 16;
         memcpy(w, (char *)bc + off, n);
-        fprintf(out, "I %u %d %d %d %d %d\n", bc->addr, (int)bc->type, w[0], w[1], w[2], w[3]);
+        if (!nocode) fprintf(out, "I %u %d %d %d %d %d\n", bc->addr, (int)bc->type, w[0], w[1], w[2], w[3]);
     }
     fprintf(out, "EXCTAB %u\n", m->exctab_value->count);
     for (unsigned e = 0; e < m->exctab_value->count; e++)
@@ -188,6 +202,7 @@ int main(int argc, char ** argv)
             { unsigned char b[4096]; ssize_t k; while ((k = read(tfd, b, sizeof b)) > 0) for (ssize_t j = 0; j < k; j++) fprintf(out, "%02x", b[j]); }
             fprintf(out, "\n");
             close(tfd); unlink(tmpl);
+            if (peak_only) fprintf(out, "PEAK sp=%d maxdepth=%d steps=%lu\n", peak_sp, peak_frames, steps);
             if (ret == 0)
             {
                 switch (result.type)
